@@ -347,6 +347,6 @@ Fixpoint n_accepted (c : cfg) (s : st) (h : list (Z * op)) : nat :=
 
 (* accrual / sequence specifications *)
 Definition mark (ks : list nat) (l : list bool) : list bool := fold_left (fun l k => set_nth k l) ks l.
-Definition seq_adv (n : Z) (v : Z) (ks : list nat) : Z :=
+Definition seq_adv (v : Z) (ks : list nat) : Z :=
   fold_left (fun v k => if (Z.of_nat k =? v) then v + 1 else v) ks v.
 Definition hits_at (t : Z) (ks : list nat) : list (Z * op) := map (fun k => (t, Hit k)) ks.
